@@ -29,11 +29,11 @@ manifest = {
         "add_only": True,
     },
     "engines": [
-        {"name": "harness", "path": "harness", "serves_properties": sorted(k for k, c in CHECKS.items() if c.get("module", "harness") == "harness" and c.get("kind", "go") == "go"),
+        {"name": "harness", "path": "harness", "serves_properties": sorted(k for k, c in CHECKS.items() if c["ready"] and c.get("module", "harness") == "harness" and c.get("kind", "go") == "go"),
          "kind_free_text": "Go module driving the real engine code (streams.Stream, routing.Handler, remedies, caches, queues) under generated workloads on a virtual clock; monitors decide on hook events, verdict histories (porcupine) and reference models"},
-        {"name": "aggharness", "path": "aggharness", "serves_properties": sorted(k for k, c in CHECKS.items() if c.get("module") == "aggharness"),
+        {"name": "aggharness", "path": "aggharness", "serves_properties": sorted(k for k, c in CHECKS.items() if c["ready"] and c.get("module") == "aggharness"),
          "kind_free_text": "Go module driving lunar/aggregation-plugin (discovery aggregation) differential batching monitor"},
-        {"name": "py", "path": "py", "serves_properties": sorted(k for k, c in CHECKS.items() if c.get("kind") == "py"),
+        {"name": "py", "path": "py", "serves_properties": sorted(k for k, c in CHECKS.items() if c["ready"] and c.get("kind") == "py"),
          "kind_free_text": "python3-vt harness importing the real interceptor modules with stubbed third-party packages; reference circuit breaker and address classifier"},
     ],
     "checks": [],
@@ -42,6 +42,8 @@ manifest = {
 }
 for pid in sorted(CHECKS):
     c = CHECKS[pid]
+    if not c["ready"]:
+        continue
     t = TEXTS[pid]
     manifest["checks"].append({
         "property_id": pid,
